@@ -66,7 +66,7 @@ func TestVerifC10API(t *testing.T) {
 	}
 	srv := httptest.NewServer(h)
 	defer srv.Close()
-	client := &http.Client{Timeout: 60 * time.Second}
+	client := &http.Client{Timeout: 15 * time.Second}
 
 	sc := bufio.NewScanner(os.Stdin)
 	sc.Buffer(make([]byte, 1<<20), 1<<30)
